@@ -171,7 +171,7 @@ import models as md  # noqa: E402
 import concurrent.futures as cf  # noqa: E402
 
 
-def impl_model_stage(prefixes, expect_fail=()):
+def impl_model_stage(prefixes, expect_fail=(), orig_mutants=()):
     """Stage factory: exhaustive TLC runs of the fine-grained model MQImpl on the model scenarios whose name
     starts with one of `prefixes`, then behaviours generated from it are replayed in lockstep on the real
     crate (op kind, location and value compared at every step) and the recorded API traces validated."""
@@ -222,8 +222,22 @@ def impl_model_stage(prefixes, expect_fail=()):
                     "the harness must exhibit it on the code before it counts)" % (m["name"], inv))
             elif not failed and m["name"] in expect_fail:
                 log("  [model] %s: expected counterexample (known finding) not found" % m["name"])
-        log("  [model] MQImpl exhaustively: %d configs, %d distinct states" %
-            (len(results), sum(r["distinct"] for _, r in results)))
+        # seeded specification mutants: the original remove_reader must be refuted by TLC
+        cov.setdefault("spec_mutants_refuted", 0)
+        for name in orig_mutants:
+            mm_ = [m for m in allm if m["name"] == name]
+            if not mm_:
+                continue
+            mod, cfg = md.write_model(mm_[0], wd, False, last_stream_stays=False)
+            r = vlib.tlc(mod, cfg, os.path.join(wd, "tlc_orig_" + name), workers=4, timeout=600, cwd=wd)
+            cov["states"] += r["distinct"]
+            cov["transitions"] += r["generated"]
+            if r["error"] and "violated" in r["out"]:
+                cov["spec_mutants_refuted"] += 1
+            else:
+                log("  [model] seeded specification mutant %s (original remove_reader) NOT refuted" % name)
+        log("  [model] MQImpl exhaustively: %d configs, %d distinct states, %d seeded spec mutants refuted" %
+            (len(results), sum(r["distinct"] for _, r in results), cov["spec_mutants_refuted"]))
         # behaviours -> lockstep replay
         gen = [m for m in sel if m["name"] not in expect_fail]
 
@@ -433,7 +447,10 @@ def check_C05(tier):
                          ops=[o for o in alphabet(fam, fut) if o not in ("brecv", "bview", "poll_complete")]))
     return generic_check("C05", tier, ["C05", "C04C05"], scns, plans_for(tier), RULE_CONC +
                          "; plus all sequential histories to the depth bound generated from MQAbsGen (teardown in "
-                         "every order: whatever is alive at the end is dropped with the ledger recording)", gens=gens)
+                         "every order: whatever is alive at the end is dropped with the ledger recording)" + RULE_IMPL +
+                         "; MQImpl carries the ownership ledger of the payloads (invariants NoBad/TeardownClean)",
+                         gens=gens, models=[impl_model_stage(["norecv", "spsc_m", "mpsc_m", "disc_m", "view", "sibdrop_m"],
+                                                             orig_mutants=("norecv_m1", "norecv_m2"))])
 
 
 def check_C06(tier):
